@@ -288,6 +288,10 @@ def cli_case(arg):
                     if jf is None or numeric(jf) != baser:
                         out["viol"].append(("numbers-differ/root-order-with-dying-child", {"roots": rr[:4], "diff": {
                             k_: [baser.get(k_), (jf or {}).get(k_)] for k_ in baser if baser.get(k_) != (jf or {}).get(k_)}}))
+        if idx % 6 == 0 and shimdir:
+            # each git child of the plain run failing at its start, inside and at the end of its output: a run that still
+            # reports success must report the same numbers (a partial list of references or objects depends on the order)
+            R.fault_sweep(R.Collector(out, strip_prefix="C09/cli/"), "C09/cli", sz, g0, argv, shimdir, d)
         # ignored references with the same values as walked ones, under names that sort before and after them
         mi = build()
         heads = {n: o for n, o in mi.refs.items() if n.startswith("refs/heads/")}
